@@ -95,17 +95,17 @@ package common
 // the controller-runtime client for ConfigMap objects are repeated in every package that talks to ConfigMaps.
 //@ define cmOfObj(o ref) *v1.ConfigMap = unbox(o, "*v1.ConfigMap")
 //@ define keyOfCM(o ref) string = gpusharingconfigmap.cmKey(cmOfObj(o).Namespace, cmOfObj(o).Name)
-//@ func PARKED.sigs.k8s.io/controller-runtime/pkg/client.Client.Get
+//@ func sigs.k8s.io/controller-runtime/pkg/client.Client.Get
 //@   props C11
-//@   requires obj != nil
+//@   requires obj != nil && typeis(obj, "*v1.ConfigMap")     // ConfigMap-only model: any other object type fails this precondition loudly
 //@   modifies fields(cmOfObj(obj))
 //@   ensures result == nil && typeis(obj, "*v1.ConfigMap") ==> gpusharingconfigmap.cmStored(gpusharingconfigmap.cmKey(key.Namespace, key.Name)) != nil && cmOfObj(obj).Name == key.Name && cmOfObj(obj).Namespace == key.Namespace
 //@   ensures result == nil && typeis(obj, "*v1.ConfigMap") ==> cmOfObj(obj).Data == nil || fresh(cmOfObj(obj).Data)
 //@   ensures result == nil && typeis(obj, "*v1.ConfigMap") ==> (forall s string :: cmOfObj(obj).Data[s] == gpusharingconfigmap.cmStored(gpusharingconfigmap.cmKey(key.Namespace, key.Name)).Data[s])
 //@ end
-//@ func PARKED.sigs.k8s.io/controller-runtime/pkg/client.Client.Patch
+//@ func sigs.k8s.io/controller-runtime/pkg/client.Client.Patch
 //@   props C11
-//@   requires obj != nil
+//@   requires obj != nil && typeis(obj, "*v1.ConfigMap")     // ConfigMap-only model: any other object type fails this precondition loudly
 //@   modifies family(gpusharingconfigmap.cmStored(""))
 //@   ensures forall k string :: k != keyOfCM(obj) ==> gpusharingconfigmap.cmStored(k) == old(gpusharingconfigmap.cmStored(k))
 //@   ensures result == nil && typeis(obj, "*v1.ConfigMap") ==> gpusharingconfigmap.cmStored(keyOfCM(obj)) == cmOfObj(obj)
